@@ -276,3 +276,7 @@ impl<'a> Message<'a> {
         })
     }
 }
+
+#[cfg(all(test, pendulum_project_ntpd_rs_verif))]
+#[path = "/verif/harness/statime-wire/hook_messages__mod.rs"]
+mod verif_hook;
